@@ -104,3 +104,54 @@ func H_notify_all() {
 	nd_assert(!dl && n == 2, "C11.notify.all")
 	nd_reach("C11.notify.all")
 }
+
+// the same two laws from an arbitrary point of the ticket sequence: wait and
+// notify start at an arbitrary common value (the counters wrap around at 2^32;
+// Go's notifyList orders tickets modulo 2^32)
+func H_notify_tickets_anybase() {
+	var l notifyList
+	base := nd_uint32("base")
+	l.wait, l.notify = base, base
+	t0 := sync_runtime_notifyListAdd(&l)
+	t1 := sync_runtime_notifyListAdd(&l)
+	nd_assert(t0 == base && t1 == base+1, "C11.notify.anybase.add")
+	w0, w1 := false, false
+	nd_go(func() { sync_runtime_notifyListWait(&l, t0); w0 = true })
+	nd_go(func() { sync_runtime_notifyListWait(&l, t1); w1 = true })
+	nd_go(func() { sync_runtime_notifyListNotifyOne(&l) })
+	dl := nd_join()
+	nd_assert(dl, "C11.notify.anybase.second-still-waits")
+	nd_assert(w0 && !w1, "C11.notify.anybase.oldest")
+	nd_reach("C11.notify.anybase")
+}
+
+func H_notify_all_anybase() {
+	var l notifyList
+	base := nd_uint32("base")
+	l.wait, l.notify = base, base
+	t0 := sync_runtime_notifyListAdd(&l)
+	t1 := sync_runtime_notifyListAdd(&l)
+	n := 0
+	nd_go(func() { sync_runtime_notifyListWait(&l, t0); n++ })
+	nd_go(func() { sync_runtime_notifyListWait(&l, t1); n++ })
+	nd_go(func() { sync_runtime_notifyListNotifyAll(&l) })
+	dl := nd_join()
+	nd_assert(!dl && n == 2, "C11.notify.anybase.all")
+	nd_reach("C11.notify.anybase.all")
+}
+
+// two NotifyOne calls release both waiters, in any order of the four threads
+func H_notify_two_ones_anybase() {
+	var l notifyList
+	base := nd_uint32("base")
+	l.wait, l.notify = base, base
+	t0 := sync_runtime_notifyListAdd(&l)
+	t1 := sync_runtime_notifyListAdd(&l)
+	n := 0
+	nd_go(func() { sync_runtime_notifyListWait(&l, t0); n++ })
+	nd_go(func() { sync_runtime_notifyListWait(&l, t1); n++ })
+	nd_go(func() { sync_runtime_notifyListNotifyOne(&l); sync_runtime_notifyListNotifyOne(&l) })
+	dl := nd_join()
+	nd_assert(!dl && n == 2, "C11.notify.anybase.two-ones")
+	nd_reach("C11.notify.anybase.two-ones")
+}
